@@ -16,6 +16,7 @@ structure StoreInv (s : State) : Prop where
   nodup : KeysNodup s
   nfa : NoneFullyAccepted s
   idx : IndexOK s
+  nonneg : RecsNonneg s
 
 /-- everything except the record store / index / ghosts is the same -/
 structure SameRest (s s' : State) : Prop where
@@ -174,9 +175,10 @@ theorem outstanding_setQR (s : State) (to : Addr) (r : Record) (d : Denom) :
 theorem keyOf_length_gt {r : Record} (h : 1 < r.getAllFromAddrs.length) : (keyOf r).length ≠ 1 := by
   simp only [keyOf, createRecordSuffix_length]; omega
 
-theorem inv_setQR {s : State} (inv : StoreInv s) (to : Addr) (r : Record) : StoreInv (setQuarantineRecord s to r) := by
+theorem inv_setQR {s : State} (inv : StoreInv s) (to : Addr) (r : Record)
+    (hr : ∀ d, 0 ≤ Coins.amountOf r.coins d) : StoreInv (setQuarantineRecord s to r) := by
   have hrecs := setQR_recs s to r
-  refine ⟨?_, ?_, ?_, ?_⟩
+  refine ⟨?_, ?_, ?_, ?_, ?_⟩
   · -- KeyOK
     intro e he
     rw [hrecs] at he
@@ -226,6 +228,14 @@ theorem inv_setQR {s : State} (inv : StoreInv s) (to : Addr) (r : Record) : Stor
         apply hne
         exact Prod.ext ht hk
       · exact hold
+  · -- RecsNonneg
+    intro e he
+    rw [hrecs] at he
+    split at he
+    · exact inv.nonneg e (mem_kvDel he)
+    · rcases mem_kvSet he with h | h
+      · subst h; exact hr
+      · exact inv.nonneg e h
 
 /-! ### AddQuarantinedCoins -/
 
@@ -242,18 +252,26 @@ structure AddQ (s s' : State) (c : Coins) (to : Addr) (froms : List Addr) : Prop
   other : ∀ k, k ≠ (to, createRecordSuffix froms) → kvGet s'.recs k = kvGet s.recs k
 
 theorem inv_with_qin {s : State} (inv : StoreInv s) (q : Coins) : StoreInv { s with qin := q } :=
-  ⟨inv.key, inv.nodup, inv.nfa, inv.idx⟩
+  ⟨inv.key, inv.nodup, inv.nfa, inv.idx, inv.nonneg⟩
 
 theorem inv_with_bank_qout {s : State} (inv : StoreInv s) (b : Ledger) (q : Coins) : StoreInv { s with bank := b, qout := q } :=
-  ⟨inv.key, inv.nodup, inv.nfa, inv.idx⟩
+  ⟨inv.key, inv.nodup, inv.nfa, inv.idx, inv.nonneg⟩
 
 theorem partition_perm (p : Addr → Bool) (l : List Addr) :
     (l.filter (fun f => !p f) ++ l.filter p).Perm l := by
   have h := List.filter_append_perm (fun f => !p f) l
   simpa using h
 
+theorem coinsAt_nonneg {s : State} (inv : StoreInv s) (to : Addr) (sfx : Suffix) (d : Denom) :
+    0 ≤ Coins.amountOf (coinsAt s to sfx) d := by
+  unfold coinsAt
+  cases hg : kvGet s.recs (to, sfx) with
+  | none => simp
+  | some r => exact inv.nonneg _ (mem_of_kvGet hg) d
+
 theorem addQuarantinedCoins_ok {s s' : State} {c : Coins} {to : Addr} {froms : List Addr}
-    (inv : StoreInv s) (h : addQuarantinedCoins s c to froms = .ok s') : AddQ s s' c to froms := by
+    (inv : StoreInv s) (hc : ∀ d, 0 ≤ Coins.amountOf c d)
+    (h : addQuarantinedCoins s c to froms = .ok s') : AddQ s s' c to froms := by
   unfold addQuarantinedCoins at h
   generalize hqr : toppedUpOrNew s c to froms = qr at h
   have hkey : keyOf qr = createRecordSuffix froms ∧
@@ -282,7 +300,13 @@ theorem addQuarantinedCoins_ok {s s' : State} {c : Coins} {to : Addr} {froms : L
     have hc' : qr'.coins = qr.coins := by rw [← hqr']
     have inv1 : StoreInv { s with qin := Coins.add s.qin c } := inv_with_qin inv _
     subst h
-    refine ⟨inv_setQR inv1 _ _, (show SameRest s { s with qin := Coins.add s.qin c } from ⟨rfl, rfl, rfl, rfl, rfl⟩).trans (setQR_sameRest _ _ _), by simp, by simp, by simp, ?_, ?_, ?_⟩
+    have hnn : ∀ d, 0 ≤ Coins.amountOf qr'.coins d := by
+      intro d
+      rw [hc', hkey.2 d]
+      have := coinsAt_nonneg inv to (createRecordSuffix froms) d
+      have := hc d
+      omega
+    refine ⟨inv_setQR inv1 _ _ hnn, (show SameRest s { s with qin := Coins.add s.qin c } from ⟨rfl, rfl, rfl, rfl, rfl⟩).trans (setQR_sameRest _ _ _), by simp, by simp, by simp, ?_, ?_, ?_⟩
     · intro d
       rw [outstanding_setQR, hk', hfa']
       have := hkey.2 d
@@ -322,6 +346,7 @@ theorem restriction_passes_iff (s : State) (f t : Addr) :
 
 /-- what a successful call of the quarantine send restriction does (no context bypass) -/
 theorem sendRestrictionFn_ok {s s' : State} {f t dest : Addr} {amt : Coins} (inv : StoreInv s)
+    (hc : ∀ d, 0 ≤ Coins.amountOf amt d)
     (h : sendRestrictionFn s false f t amt = .ok (s', dest)) :
     (quarantines s f t = false ∧ s' = s ∧ dest = t) ∨
     (quarantines s f t = true ∧ dest = s.holder ∧ AddQ s s' amt t [f]) := by
@@ -344,7 +369,7 @@ theorem sendRestrictionFn_ok {s s' : State} {f t dest : Addr} {amt : Coins} (inv
       | ok s1 =>
         simp only [hadd, Bool.false_eq_true, if_false, Except.ok.injEq, Prod.mk.injEq] at h
         obtain ⟨rfl, rfl⟩ := h
-        exact Or.inr ⟨hq, rfl, addQuarantinedCoins_ok inv hadd⟩
+        exact Or.inr ⟨hq, rfl, addQuarantinedCoins_ok inv hc hadd⟩
 
 theorem restrictionChain_ok {s s' : State} {b : Bool} {f t dest : Addr} {amt : Coins}
     (h : restrictionChain s b f t amt = .ok (s', dest)) :
@@ -471,17 +496,18 @@ theorem specOuts_congr {s s' : State} (h : SameRest s s') (xs : List Xfer) : spe
   simp only [quarantines_congr h, h.holder]
 
 theorem applyRestrictions_ok (xs : List Xfer) :
-    ∀ (s s' : State) (outs : List (Addr × Coins)), StoreInv s →
+    ∀ (s s' : State) (outs : List (Addr × Coins)), StoreInv s → (∀ x ∈ xs, ∀ d, 0 ≤ Coins.amountOf x.amt d) →
       applyRestrictions s false xs = .ok (s', outs) → Applied s s' xs outs := by
   induction xs with
   | nil =>
-    intro s s' outs inv h
+    intro s s' outs inv _ h
     simp only [applyRestrictions, Except.ok.injEq, Prod.mk.injEq] at h
     obtain ⟨rfl, rfl⟩ := h
     exact ⟨inv, SameRest.refl _, rfl, rfl, rfl, fun d => by simp [expQuarantined], fun d => by simp [expQuarantined],
       fun to f d => by simp [expRecord], fun k _ => rfl⟩
   | cons x rest ih =>
-    intro s s' outs inv h
+    intro s s' outs inv hn h
+    have hn' : ∀ y ∈ rest, ∀ d, 0 ≤ Coins.amountOf y.amt d := fun y hy => hn y (List.mem_cons_of_mem _ hy)
     unfold applyRestrictions at h
     cases hr : restrictionChain s false x.from_ x.to x.amt with
     | error e => simp [hr] at h
@@ -495,16 +521,16 @@ theorem applyRestrictions_ok (xs : List Xfer) :
         simp only [hrest, Except.ok.injEq, Prod.mk.injEq] at h
         obtain ⟨rfl, rfl⟩ := h
         obtain ⟨_, hsr⟩ := restrictionChain_ok hr
-        rcases sendRestrictionFn_ok inv hsr with ⟨hq, rfl, rfl⟩ | ⟨hq, rfl, hadd⟩
+        rcases sendRestrictionFn_ok inv (hn x (List.mem_cons_self ..)) hsr with ⟨hq, rfl, rfl⟩ | ⟨hq, rfl, hadd⟩
         · -- delivered directly
-          have A := ih s1 s2 outs2 inv hrest
+          have A := ih s1 s2 outs2 inv hn' hrest
           refine ⟨A.inv, A.rest, A.bank, A.qout, ?_, ?_, ?_, ?_, A.multi⟩
           · rw [A.outs]; simp [specOuts, destOf, hq]
           · intro d; rw [A.out]; simp [expQuarantined, hq]
           · intro d; rw [A.qin]; simp [expQuarantined, hq]
           · intro to f d; rw [A.single]; simp [expRecord, hq]
         · -- quarantined
-          have A := ih s1 s2 outs2 hadd.inv hrest
+          have A := ih s1 s2 outs2 hadd.inv hn' hrest
           have hsame := hadd.rest
           refine ⟨A.inv, hsame.trans A.rest, A.bank.trans hadd.bank, A.qout.trans hadd.qout, ?_, ?_, ?_, ?_, ?_⟩
           · rw [A.outs, specOuts_congr hsame]; simp [specOuts, destOf, hq]
@@ -573,9 +599,10 @@ structure Transferred (s s' : State) (xs : List Xfer) : Prop where
   multi : ∀ k : Addr × Suffix, k.2.length ≠ 1 → kvGet s'.recs k = kvGet s.recs k
 
 theorem inv_with_bank {s : State} (inv : StoreInv s) (b : Ledger) : StoreInv { s with bank := b } :=
-  ⟨inv.key, inv.nodup, inv.nfa, inv.idx⟩
+  ⟨inv.key, inv.nodup, inv.nfa, inv.idx, inv.nonneg⟩
 
 theorem bankTransfers_ok {s s' : State} {xs : List Xfer} (inv : StoreInv s)
+    (hn : ∀ x ∈ xs, ∀ d, 0 ≤ Coins.amountOf x.amt d)
     (h : bankTransfers s false xs = .ok s') : Transferred s s' xs := by
   unfold bankTransfers at h
   cases hd : debitAll s.bank xs with
@@ -588,10 +615,10 @@ theorem bankTransfers_ok {s s' : State} {xs : List Xfer} (inv : StoreInv s)
       obtain ⟨s2, outs⟩ := p
       simp only [ha, Except.ok.injEq] at h
       subst h
-      have A := applyRestrictions_ok xs _ _ _ (inv_with_bank inv b1) ha
+      have A := applyRestrictions_ok xs _ _ _ (inv_with_bank inv b1) hn ha
       have hs : SameRest s { s with bank := b1 } := ⟨rfl, rfl, rfl, rfl, rfl⟩
       obtain ⟨hb, hsup⟩ := debitAll_ok xs _ _ hd
-      refine ⟨⟨A.inv.key, A.inv.nodup, A.inv.nfa, A.inv.idx⟩, ?_, A.qout, ?_, ?_, ?_, ?_, ?_, A.multi⟩
+      refine ⟨⟨A.inv.key, A.inv.nodup, A.inv.nfa, A.inv.idx, A.inv.nonneg⟩, ?_, A.qout, ?_, ?_, ?_, ?_, ?_, A.multi⟩
       · exact ⟨A.rest.holder, A.rest.restricted, A.rest.xfer, A.rest.optin, A.rest.auto⟩
       · intro a d
         show Ledger.bal (creditAll s2.bank outs) a d = _
